@@ -51,6 +51,15 @@ Proof.
   rewrite apply_plain_pending by exact H. reflexivity.
 Qed.
 
+Lemma txn_abort c ws :
+  forallb plain ws = true ->
+  apply_calls (mkDb c None) (CBegin :: ws ++ [CAbort]) = mkDb c None.
+Proof.
+  intros H. change (CBegin :: ws ++ [CAbort]) with ([CBegin] ++ (ws ++ [CAbort])).
+  rewrite apply_calls_app. cbn [apply_calls fold_left apply_call committed]. rewrite apply_calls_app.
+  rewrite apply_plain_pending by exact H. reflexivity.
+Qed.
+
 Lemma firstn_txn_cases {A} (b e : A) ws j :
   (exists ws', firstn j (b :: ws ++ [e]) = [] /\ ws' = @nil A) \/
   (exists k, firstn j (b :: ws ++ [e]) = b :: firstn k ws) \/
@@ -131,24 +140,23 @@ Proof.
   rewrite IH. unfold zset. destruct (k' =? k); cbn; [destruct (existsb (Z.eqb k') r); reflexivity|reflexivity].
 Qed.
 
-Lemma rm_calls_plain m ks cs : rm_calls m ks = Some cs -> forallb plain cs = true.
+Lemma rm_calls_plain m ks : forallb plain (fst (rm_calls m ks)) = true.
 Proof.
-  revert cs. induction ks as [|k r IH]; intros cs H; cbn in H; [inversion H; reflexivity|].
-  destruct (m_tx m k); [|discriminate]. destruct (rm_calls m r) as [cs'|]; [|discriminate].
-  inversion H; subst. cbn. apply IH. reflexivity.
+  induction ks as [|k r IH]; cbn; [reflexivity|].
+  destruct (m_tx m k); [|reflexivity]. destruct (rm_calls m r) as [cs ok]. cbn in *. exact IH.
 Qed.
 
-Lemma rm_calls_apply m ks cs : rm_calls m ks = Some cs ->
-  forall d key, fold_left db_apply cs d key =
+Lemma rm_calls_apply m ks : snd (rm_calls m ks) = true ->
+  forall d key, fold_left db_apply (fst (rm_calls m ks)) d key =
     match key with
     | KTx k' | KTxVar k' => if existsb (Z.eqb k') ks then None else d key
     | _ => d key
     end.
 Proof.
-  revert cs. induction ks as [|k r IH]; intros cs H d key; cbn in H.
-  - inversion H; subst. cbn. destruct key; reflexivity.
-  - destruct (m_tx m k); [|discriminate]. destruct (rm_calls m r) as [cs'|] eqn:R; [|discriminate].
-    inversion H; subst. cbn [fold_left]. rewrite (IH _ eq_refl). cbn [db_apply existsb]. unfold db_set.
+  induction ks as [|k r IH]; intros H d key; cbn in H |- *.
+  - destruct key; reflexivity.
+  - destruct (m_tx m k); [|discriminate]. destruct (rm_calls m r) as [cs ok] eqn:R. cbn [fst snd] in *.
+    cbn [fold_left]. rewrite (IH H). cbn [db_apply]. unfold db_set.
     destruct key; cbn [key_eqb]; try reflexivity.
     + destruct (k0 =? k); cbn; [destruct (existsb (Z.eqb k0) r); reflexivity|reflexivity].
     + destruct (k0 =? k); cbn; [destruct (existsb (Z.eqb k0) r); reflexivity|reflexivity].
@@ -230,12 +238,13 @@ Proof.
     + exists d. split; [reflexivity|]. split; [exact L|intros n; auto].
     + std.
   - (* ORmTx *)
-    destruct (rm_calls m ks) as [cs0|] eqn:R; inversion H; subst; clear H.
-    + eexists. split; [apply txn_commit; eapply rm_calls_plain; exact R|]. split.
-      * lvsplit; intros; rewrite ?(rm_calls_apply _ _ _ R); auto.
+    pose proof (rm_calls_plain m ks) as Rp. pose proof (rm_calls_apply m ks) as Ra.
+    destruct (rm_calls m ks) as [cs0 ok] eqn:R. cbn [fst snd] in Rp, Ra. destruct ok; inversion H; subst; clear H.
+    + eexists. split; [apply txn_commit; exact Rp|]. split.
+      * lvsplit; intros; rewrite ?(Ra eq_refl); auto.
         rewrite tx_remove_get, G. destruct (existsb (Z.eqb k) ks); reflexivity.
-      * intros n. rewrite (rm_calls_apply _ _ _ R). auto.
-    + exists d. split; [reflexivity|]. split; [exact L|intros n; auto].
+      * intros n. rewrite (Ra eq_refl). auto.
+    + exists d. split; [apply txn_abort; exact Rp|]. split; [exact L|intros n; auto].
   - (* OTop *)
     unfold topup_calls in H. inversion H; subst; clear H. std.
   - (* OFlag *)
@@ -355,7 +364,8 @@ Lemma reopen_props st :
   m_flag (w_mem (reopen st)) = m_flag (w_mem st) /\
   (forall n, m_locks (w_mem (reopen st)) n = match committed (w_db st) (KLock n) with Some _ => Some true | None => None end) /\
   (forall n, committed (w_db (reopen st)) (KLock n) = committed (w_db st) (KLock n)) /\
-  m_lk (w_mem (reopen st)) = m_lk (w_mem st).
+  m_lk (w_mem (reopen st)) = m_lk (w_mem st) /\
+  (forall k, match k with KDesc _ => True | _ => committed (w_db (reopen st)) k = committed (w_db st) k end).
 Proof.
   intros [Hp L]. unfold reopen, crash.
   destruct (load_topup (w_kp st) 8 (load_mem (committed (w_db st)) (m_lk (w_mem st))) (mkDb (committed (w_db st)) None)) as [m1 s1] eqn:R.
@@ -368,10 +378,10 @@ Proof.
   split.
   { intros t. destruct (D1 t) as [Da Db]. cbn [load_mem m_desc] in Da, Db. rewrite A in Da, Db. cbn [fst snd] in *. split; [exact Da|exact Db]. }
   rewrite I1, I2, I3, I4, I5, I6, I7, I8, I9, I10. cbn [load_mem m_imp m_label m_purpose m_used m_rr m_locks m_lk m_tx m_opn m_flag].
-  repeat split; intros; auto. apply (K1 (KLock n)).
+  repeat split; intros; auto; [apply (K1 (KLock n))|]. destruct k; auto; match goal with |- _ ?kk = _ => exact (K1 kk) end.
 Qed.
 
-Global Opaque reopen.
+#[local] Opaque reopen.
 
 Definition is_restart (o : op) : bool := match o with OReload | OCrash => true | _ => false end.
 Lemma step_restart upgrade st o : is_restart o = true -> step upgrade st o = (reopen st, true).
@@ -383,7 +393,7 @@ Proof. destruct o; intros H; try discriminate; reflexivity. Qed.
 Lemma step_synced upgrade st o st' r : synced st -> step upgrade st o = (st', r) -> synced st'.
 Proof.
   intros S H. destruct (is_restart o) eqn:Ro.
-  - rewrite step_restart in H by exact Ro. injection H as E1 E2; subst st' r. apply reopen_props; exact S.
+  - rewrite step_restart in H by exact Ro. apply (f_equal fst) in H. cbn [fst] in H. rewrite <- H. destruct (reopen_props _ S) as [R _]. exact R.
   - rewrite step_normal in H by exact Ro. destruct S as [Hp L].
     destruct (op_effect upgrade (w_kp st) (w_mem st) o) as [[m1 cs] r1] eqn:OE. inversion H; subst; clear H.
     destruct (op_synced _ _ _ _ _ _ _ _ L OE) as (d1 & Ha & L1 & _).
@@ -394,15 +404,252 @@ Lemma step_synced_locks st o st' r :
   synced st -> synced_locks st -> step true st o = (st', r) -> synced_locks st'.
 Proof.
   intros S SL H. destruct (is_restart o) eqn:Ro.
-  - rewrite step_restart in H by exact Ro. injection H as E1 E2; subst st' r. unfold synced_locks.
-    destruct (reopen_props _ S) as (_ & _ & _ & _ & _ & _ & _ & _ & _ & _ & RL & RD & RK).
+  - rewrite step_restart in H by exact Ro. apply (f_equal fst) in H. cbn [fst] in H. rewrite <- H. clear H. unfold synced_locks.
+    destruct (reopen_props _ S) as (_ & _ & _ & _ & _ & _ & _ & _ & _ & _ & RL & RD & RK & _).
     destruct SL as [P Q]. split; intros n.
     + unfold pview. rewrite RL, RD. destruct (committed (w_db st) (KLock n)); reflexivity.
     + rewrite RL, RK. intros Hn. apply Q. specialize (P n). unfold pview in P.
       destruct (committed (w_db st) (KLock n)); [destruct (m_locks (w_mem st) n); congruence|congruence].
-  - rewrite step_normal in H by exact Ro. destruct S as [Hp L].
+  - rewrite step_normal in H by exact Ro. destruct S as [Hp L]. unfold synced_locks in *.
     destruct (op_effect true (w_kp st) (w_mem st) o) as [[m1 cs] r1] eqn:OE. inversion H; subst; clear H.
+    destruct (w_db st) as [c p] eqn:Edb. cbn [committed pending] in *. subst p.
     destruct (op_synced _ _ _ _ _ _ _ _ L OE) as (d1 & Ha & L1 & _).
-    destruct (w_db st) as [c p]. cbn in Hp; subst p. unfold synced_locks in *. cbn [w_mem w_db committed pending] in *. rewrite Ha. cbn [committed].
-    eapply op_locks; eassumption.
+    cbn [w_mem w_db]. rewrite Ha. cbn [committed]. exact (op_locks _ _ _ _ _ _ _ _ L SL OE Ha).
+Qed.
+
+(* ---------------------------------------------------------------------------------------------- *)
+(* runs *)
+
+Lemma init_synced kp : synced (init kp) /\ synced_locks (init kp).
+Proof.
+  split; [split; [reflexivity|]|split].
+  - lvsplit; intros; reflexivity.
+  - intros n. reflexivity.
+  - intros n H. cbn in H. congruence.
+Qed.
+
+Lemma run_synced ops : forall st rs st',
+  synced st -> synced_locks st -> run true st ops = (rs, st') -> synced st' /\ synced_locks st'.
+Proof.
+  induction ops as [|o r IH]; intros st rs st' S SL H; cbn [run] in H.
+  - inversion H; subst. split; assumption.
+  - destruct (step true st o) as [st1 x] eqn:E. destruct (run true st1 r) as [xs st2] eqn:R. inversion H; subst; clear H.
+    eapply IH; [eapply step_synced; eassumption|eapply step_synced_locks; eassumption|exact R].
+Qed.
+
+(* C43, clean restart: whatever the history, the reloaded wallet answers every getter like the running wallet;
+   range_end may have grown (top-up on load), memory-only locks are gone *)
+Lemma clean_restart kp ops :
+  let st := snd (run true (init kp) ops) in
+  let m := w_mem st in let m' := w_mem (reopen st) in
+  (forall t, fst (m_desc m' t) = fst (m_desc m t) /\ snd (m_desc m t) <= snd (m_desc m' t)) /\
+  (forall k, m_imp m' k = m_imp m k) /\
+  (forall a, m_label m' a = m_label m a) /\
+  (forall a, m_purpose m' a = m_purpose m a) /\
+  (forall a, m_used m' a = m_used m a) /\
+  (forall a id, m_rr m' a id = m_rr m a id) /\
+  (forall k, m_tx m' k = m_tx m k) /\
+  m_opn m' = m_opn m /\
+  m_flag m' = m_flag m /\
+  (forall n, m_locks m' n = if pview (m_locks m) n then Some true else None).
+Proof.
+  destruct (run true (init kp) ops) as [rs st] eqn:R. cbn [snd].
+  destruct (init_synced kp) as [S0 SL0]. destruct (run_synced _ _ _ _ S0 SL0 R) as [S [P Q]].
+  destruct (reopen_props _ S) as (_ & A & B & C & D & E & F & G & Hh & I & RL & _).
+  repeat split; try (intros; auto; fail); try apply A.
+  intros n. rewrite RL, P. destruct (committed (w_db st) (KLock n)); reflexivity.
+Qed.
+
+(* the pre-fix LockCoin: lock in memory, lock persistently, unlock -> the record survives and the coin is locked
+   again after the restart *)
+Lemma lock_upgrade_witness :
+  let st := snd (run false (init 2) [OLock 1 false; OLock 1 true; OUnlock 1]) in
+  m_locks (w_mem st) 1 = None /\ committed (w_db st) (KLock 1) = Some VUnit.
+Proof. vm_compute. split; reflexivity. Qed.
+
+Lemma lock_upgrade_fixed_witness :
+  let st := snd (run true (init 2) [OLock 1 false; OLock 1 true; OUnlock 1]) in
+  m_locks (w_mem st) 1 = None /\ committed (w_db st) (KLock 1) = None.
+Proof. vm_compute. split; reflexivity. Qed.
+
+(* ---------------------------------------------------------------------------------------------- *)
+(* crashes: transactional updates are all-or-nothing *)
+
+Definition is_txn_op (o : op) : bool := match o with ODel _ | ORmTx _ | OTop _ _ => true | _ => false end.
+
+Lemma txn_all_or_nothing upgrade st o j :
+  synced st -> is_txn_op o = true ->
+  crash_in upgrade st o j = committed (w_db st) \/
+  crash_in upgrade st o j = committed (w_db (fst (step upgrade st o))).
+Proof.
+  intros [Hp _] Ho. unfold crash_in. rewrite step_normal by (destruct o; try discriminate; reflexivity).
+  destruct (w_db st) as [c p] eqn:Edb. cbn in Hp. subst p. cbn [committed].
+  destruct o; try discriminate; cbn [op_effect].
+  - (* ODel *)
+    destruct (is_mine (w_mem st) a); cbn [fst w_db].
+    + left. apply (txn_abort_atomic c [] j). reflexivity.
+    + apply (txn_atomic c [CErasePrefixDest a; CErase (KPurpose a); CErase (KName a)] j). reflexivity.
+  - (* ORmTx *)
+    pose proof (rm_calls_plain (w_mem st) ks) as Rp.
+    destruct (rm_calls (w_mem st) ks) as [cs ok] eqn:R. cbn [fst] in Rp. destruct ok; cbn [fst w_db].
+    + apply (txn_atomic c cs j). exact Rp.
+    + left. apply (txn_abort_atomic c cs j). exact Rp.
+  - (* OTop *)
+    unfold topup_calls. cbn [fst w_db].
+    apply (txn_atomic c [CWrite (KDesc s) (VDesc (fst (m_desc (w_mem st) s)) (Z.max (fst (m_desc (w_mem st) s) + (if 0 <? n then n else w_kp st)) (snd (m_desc (w_mem st) s))))] j). reflexivity.
+Qed.
+
+(* crashes: the wallet still loads *)
+Definition ok_db (d : db) : Prop := forall k, load_ok_at d k = true.
+Definition dbok (s : dbst) : Prop := ok_db (committed s) /\ forall p, pending s = Some p -> ok_db p.
+
+Definition neutral (c : call) : bool :=
+  match c with
+  | CWrite (KImpDesc _) _ => false
+  | CErase (KImpCache _) => false
+  | _ => true
+  end.
+
+Lemma db_apply_ok d c : neutral c = true -> ok_db d -> ok_db (db_apply d c).
+Proof.
+  intros N H k. specialize (H k). unfold load_ok_at in *.
+  destruct c; cbn [db_apply]; try exact H.
+  - (* CWrite *)
+    unfold db_set. destruct k0; cbn [key_eqb]; try exact H; try discriminate.
+    destruct (k =? k0); [destruct (d (KImpDesc k)); reflexivity|exact H].
+  - (* CErase *)
+    unfold db_set. destruct k0; cbn [key_eqb]; try exact H; try discriminate.
+    destruct (k =? k0); [reflexivity|exact H].
+Qed.
+
+Lemma neutral_plain s c : neutral c = true -> dbok s ->
+  dbok (match pending s with
+        | Some p => mkDb (committed s) (Some (db_apply p c))
+        | None => mkDb (db_apply (committed s) c) None
+        end).
+Proof.
+  intros N [A B]. destruct (pending s) as [p|] eqn:E; split; cbn [committed pending].
+  - exact A.
+  - intros q Eq. inversion Eq; subst. apply db_apply_ok; [exact N|apply B; reflexivity].
+  - apply db_apply_ok; [exact N|exact A].
+  - discriminate.
+Qed.
+
+Lemma neutral_step s c : neutral c = true -> dbok s -> dbok (apply_call s c).
+Proof.
+  intros N D. destruct c; cbn [apply_call]; try (apply neutral_plain; assumption); destruct D as [A B].
+  - split; cbn [committed pending]; [exact A|intros p E; inversion E; subst; exact A].
+  - destruct (pending s) as [p|] eqn:E; [split; cbn [committed pending]; [apply B; reflexivity|discriminate]|split; [exact A|intros q Eq; rewrite E in Eq; discriminate]].
+  - split; cbn [committed pending]; [exact A|discriminate].
+Qed.
+
+Lemma neutral_calls cs : forall s, forallb neutral cs = true -> dbok s -> dbok (apply_calls s cs).
+Proof.
+  induction cs as [|c r IH]; intros s H D; cbn; [exact D|].
+  cbn in H. apply andb_true_iff in H. destruct H as [Hc Hr]. apply IH; [exact Hr|apply neutral_step; assumption].
+Qed.
+
+Lemma rm_calls_neutral m ks : forallb neutral (fst (rm_calls m ks)) = true.
+Proof.
+  induction ks as [|k r IH]; cbn; [reflexivity|].
+  destruct (m_tx m k); [|reflexivity]. destruct (rm_calls m r) as [cs ok]. cbn in *. exact IH.
+Qed.
+
+Lemma unlock_all_neutral f lk : forallb neutral (unlock_all_calls f lk) = true.
+Proof.
+  unfold unlock_all_calls. induction lk as [|n r IH]; cbn; [reflexivity|].
+  rewrite forallb_app, IH. destruct (f n) as [[|]|]; reflexivity.
+Qed.
+
+Lemma op_calls_neutral upgrade kp m o m1 cs r :
+  op_effect upgrade kp m o = (m1, cs, r) -> (forall k, o <> OImport k) -> forallb neutral cs = true.
+Proof.
+  intros H Hn. destruct o; cbn [op_effect] in H.
+  - unfold topup_calls in H. destruct (Nat.ltb s 4); inversion H; reflexivity.
+  - inversion H; subst. destruct p; reflexivity.
+  - destruct (is_mine m a); inversion H; reflexivity.
+  - inversion H; subst. destruct u; reflexivity.
+  - inversion H; reflexivity.
+  - inversion H; reflexivity.
+  - inversion H; subst. destruct persist; reflexivity.
+  - inversion H; subst. destruct (m_locks m n) as [[|]|]; reflexivity.
+  - inversion H; subst. apply unlock_all_neutral.
+  - destruct (m_tx m k); inversion H; reflexivity.
+  - pose proof (rm_calls_neutral m ks) as Rn. destruct (rm_calls m ks) as [cs0 ok] eqn:R. cbn [fst] in Rn.
+    destruct ok; inversion H; subst; cbn; rewrite forallb_app, Rn; reflexivity.
+  - unfold topup_calls in H. inversion H; reflexivity.
+  - inversion H; reflexivity.
+  - exfalso. eapply Hn. reflexivity.
+  - inversion H; reflexivity.
+  - inversion H; reflexivity.
+Qed.
+
+Lemma forallb_firstn' {A} (f : A -> bool) l k : forallb f l = true -> forallb f (firstn k l) = true.
+Proof. apply forallb_firstn. Qed.
+
+Lemma import_prefix_ok d k j :
+  ok_db d ->
+  ok_db (crash (apply_calls (mkDb d None) (firstn j [CWrite (KImpKey k) VUnit; CWrite (KImpCache k) VUnit; CWrite (KImpDesc k) VUnit; CWrite (KImpDesc k) VUnit]))).
+Proof.
+  intros H. destruct j as [|[|[|[|[|j]]]]]; cbn; intros k0; specialize (H k0); unfold load_ok_at in *; unfold db_set; cbn [key_eqb];
+  try exact H; destruct (k0 =? k); try exact H; try reflexivity; destruct (d (KImpDesc k0)); reflexivity.
+Qed.
+
+(* at whatever database call an operation is interrupted, what is left on disk loads *)
+Lemma crash_loads upgrade st o j :
+  pending (w_db st) = None -> ok_db (committed (w_db st)) -> ok_db (crash_in upgrade st o j).
+Proof.
+  intros Hp Hok. unfold crash_in.
+  destruct (op_effect upgrade (w_kp st) (w_mem st) o) as [[m1 cs] r] eqn:OE.
+  destruct (w_db st) as [c p]. cbn in Hp, Hok. subst p.
+  destruct o; try (apply neutral_calls; [apply forallb_firstn; eapply op_calls_neutral; [exact OE|intros k0; discriminate]|split; [exact Hok|discriminate]]).
+  cbn [op_effect] in OE. inversion OE; subst. apply import_prefix_ok. exact Hok.
+Qed.
+
+Lemma firstn_length_all {A} (l : list A) : firstn (length l) l = l.
+Proof. apply firstn_all. Qed.
+
+Lemma step_ok upgrade st o st' r :
+  synced st -> ok_db (committed (w_db st)) -> step upgrade st o = (st', r) -> ok_db (committed (w_db st')).
+Proof.
+  intros S Hok H. destruct (is_restart o) eqn:Ro.
+  - rewrite step_restart in H by exact Ro. apply (f_equal fst) in H. cbn [fst] in H. rewrite <- H.
+    destruct (reopen_props _ S) as (_ & _ & _ & _ & _ & _ & _ & _ & _ & _ & _ & _ & _ & K).
+    intros k. specialize (Hok k). unfold load_ok_at in *.
+    rewrite (K (KImpDesc k)), (K (KImpCache k)). exact Hok.
+  - destruct S as [Hp _]. pose proof (crash_loads upgrade st o (length (snd (fst (op_effect upgrade (w_kp st) (w_mem st) o)))) Hp Hok) as C.
+    unfold crash_in in C. rewrite step_normal in H by exact Ro.
+    destruct (op_effect upgrade (w_kp st) (w_mem st) o) as [[m1 cs] r1] eqn:OE. cbn [fst snd] in C. rewrite firstn_all in C.
+    inversion H; subst. exact C.
+Qed.
+
+Lemma run_ok upgrade ops : forall st rs st',
+  synced st -> ok_db (committed (w_db st)) -> run upgrade st ops = (rs, st') ->
+  synced st' /\ ok_db (committed (w_db st')).
+Proof.
+  induction ops as [|o r IH]; intros st rs st' S Hok H; cbn [run] in H.
+  - inversion H; subst. split; assumption.
+  - destruct (step upgrade st o) as [st1 x] eqn:E. destruct (run upgrade st1 r) as [xs st2] eqn:R. inversion H; subst; clear H.
+    eapply IH; [eapply step_synced; eassumption|eapply step_ok; eassumption|exact R].
+Qed.
+
+(* C43, crash: after any history, a crash before any database call of any operation leaves a wallet that loads *)
+Lemma crash_anywhere_loads upgrade kp ops o j :
+  ok_db (crash_in upgrade (snd (run upgrade (init kp) ops)) o j).
+Proof.
+  destruct (run upgrade (init kp) ops) as [rs st] eqn:R. cbn [snd].
+  destruct (init_synced kp) as [S0 _].
+  assert (H0 : ok_db (committed (w_db (init kp)))) by (intros k; reflexivity).
+  destruct (run_ok _ _ _ _ _ S0 H0 R) as [[Hp _] Hok]. apply crash_loads; assumption.
+Qed.
+
+Lemma crash_anywhere_atomic upgrade kp ops o j :
+  is_txn_op o = true ->
+  let st := snd (run upgrade (init kp) ops) in
+  crash_in upgrade st o j = committed (w_db st) \/ crash_in upgrade st o j = committed (w_db (fst (step upgrade st o))).
+Proof.
+  intros Ho. destruct (run upgrade (init kp) ops) as [rs st] eqn:R. cbn [snd].
+  destruct (init_synced kp) as [S0 _].
+  assert (H0 : ok_db (committed (w_db (init kp)))) by (intros k; reflexivity).
+  destruct (run_ok _ _ _ _ _ S0 H0 R) as [S _]. apply txn_all_or_nothing; assumption.
 Qed.
